@@ -426,6 +426,7 @@ func c05Case(c *Ctx, r gen.R, mt msgType, zero bool, caseNo int64, zone, phase s
 		if prevEnc, perr := codec.Marshal(prevV.Interface()); perr == nil {
 			w := reflect.New(mt.t)
 			var derr error
+			heldSlices, heldCopies, heldNames := [][]byte{}, []string{}, []string{}
 			func() {
 				defer func() {
 					if p := recover(); p != nil {
@@ -433,9 +434,23 @@ func c05Case(c *Ctx, r gen.R, mt msgType, zero bool, caseNo int64, zone, phase s
 					}
 				}()
 				if derr = codec.Unmarshal(prevEnc, w.Interface()); derr == nil {
+					// the application copies the addresses out of the first message before it reuses the variable
+					for fi := 0; fi < w.Elem().NumField(); fi++ {
+						if f := w.Elem().Field(fi); f.Kind() == reflect.Slice && f.Type().Elem().Kind() == reflect.Uint8 && f.Len() > 0 {
+							heldSlices = append(heldSlices, f.Bytes())
+							heldCopies = append(heldCopies, string(f.Bytes()))
+							heldNames = append(heldNames, mt.t.Field(fi).Name)
+						}
+					}
 					derr = codec.Unmarshal(enc, w.Interface())
 				}
 			}()
+			for hi := range heldSlices {
+				if string(heldSlices[hi]) != heldCopies[hi] {
+					c.Res.Violate("C05:"+mt.t.Name()+":earlier-result-changes:"+heldNames[hi], fmt.Sprintf("%s.%s: the address taken from a decoded message (%x) reads %x after the next message was decoded into the same variable", mt.t.Name(), heldNames[hi], []byte(heldCopies[hi]), heldSlices[hi]), map[string]any{"zone": zone, "phase": phase, "bytes": wk.Hex(enc), "previous": wk.Hex(prevEnc)}, caseNo)
+					break
+				}
+			}
 			c.Res.Eval(1)
 			if derr != nil {
 				c.Res.Violate("C05:"+mt.t.Name()+":decode-into-used-variable", fmt.Sprintf("%s: decoding into a variable that already held another message failed: %v", mt.t.Name(), derr), map[string]any{"zone": zone, "phase": phase, "bytes": wk.Hex(enc)}, caseNo)
